@@ -14,18 +14,20 @@ import (
 	"pgregory.net/rapid"
 
 	"verif/harness/core"
+	"verif/harness/refsasl"
 	"verif/harness/refsmtp"
 )
 
 // C13 — concurrent use of one Client is safe. Build with -race.
 
 type c13Case struct {
-	Goroutines int   `json:"goroutines"`
-	MsgsPer    int   `json:"msgs_per"`
-	DialEvery  int   `json:"dial_every"` // every n-th goroutine uses DialAndSend on the same Client (0 = none)
-	JitterUS   []int `json:"jitter_us"`
-	Procs      int   `json:"procs"`
-	Batch      bool  `json:"batch"` // a goroutine hands all its messages to one Send call
+	Goroutines int    `json:"goroutines"`
+	MsgsPer    int    `json:"msgs_per"`
+	DialEvery  int    `json:"dial_every"` // every n-th goroutine uses DialAndSend on the same Client (0 = none)
+	JitterUS   []int  `json:"jitter_us"`
+	Procs      int    `json:"procs"`
+	Batch      bool   `json:"batch"`          // a goroutine hands all its messages to one Send call
+	Auth       string `json:"auth,omitempty"` // "" | LOGIN-NOENC | CRAM-MD5 | SCRAM-SHA-256: every connection authenticates against a verifying server
 }
 
 func c13Msg(token string) *mail.Msg {
@@ -44,6 +46,21 @@ func c13Run(c c13Case) []*core.Violation {
 	srv := refsmtp.NewServer(refsmtp.Script{Caps: []string{"8BITMIME"}, JitterUS: c.JitterUS, NoGreetProbe: true})
 	d := &refsmtp.Dialer{Srv: srv}
 	cfg := smtpCfg{TLS: "none", TimeoutMS: 20000}
+	if c.Auth != "" {
+		acc := refsasl.Account{User: "c13user", Pass: "c13-Secret+Pass"}
+		cfg.Auth, cfg.User, cfg.Pass = c.Auth, acc.User, acc.Pass
+		wire := strings.TrimSuffix(c.Auth, "-NOENC")
+		srv.Script.Caps = append(srv.Script.Caps, "AUTH "+wire)
+		// one verifier per connection: the handlers keep no state between exchanges, the Result is unused
+		switch wire {
+		case "LOGIN":
+			srv.Auth = refsasl.Login(acc, &refsasl.Result{})
+		case "CRAM-MD5":
+			srv.Auth = refsasl.CramMD5(acc, "<c13.challenge@ref.verif.example>", &refsasl.Result{})
+		default:
+			srv.Auth = refsasl.Scram(acc, refsasl.ScramParams{Hash: "SHA-256", Salt: []byte("c13-salt"), Iter: 4, NonceSuffix: "c13srv"}, &refsasl.Result{})
+		}
+	}
 	cl, err := mail.NewClient(refHost, cfg.options(d)...)
 	if err != nil {
 		return []*core.Violation{core.V("HARNESS-newclient", "%v", err)}
@@ -154,7 +171,7 @@ func c13Run(c c13Case) []*core.Violation {
 	}
 	jit := len(c.JitterUS) > 0
 	if c.Goroutines >= 4 && jit {
-		rec.NonTrivial(core.Join(c.Goroutines, c.MsgsPer, c.DialEvery, fmt.Sprint(c.JitterUS), c.Procs, c.Batch))
+		rec.NonTrivial(core.Join(c.Goroutines, c.MsgsPer, c.DialEvery, fmt.Sprint(c.JitterUS), c.Procs, c.Batch, c.Auth))
 		rec.Sample(fmt.Sprintf("%d/%d", c.Goroutines/16, c.DialEvery), map[string]interface{}{"case": c, "connections": len(d.Sessions), "messages": len(all)})
 	}
 	rec.AddExtra("messages_sent", len(all))
@@ -168,6 +185,10 @@ func c13Gen(t *rapid.T) c13Case {
 	c.DialEvery = rapid.SampledFrom([]int{0, 0, 2, 3, 5}).Draw(t, "dialevery")
 	c.Procs = rapid.SampledFrom([]int{2, 4, 16}).Draw(t, "procs")
 	c.Batch = rapid.Bool().Draw(t, "batch")
+	c.Auth = rapid.SampledFrom([]string{"", "", "LOGIN-NOENC", "CRAM-MD5", "SCRAM-SHA-256"}).Draw(t, "auth")
+	if c.Auth != "" && c.DialEvery == 0 {
+		c.DialEvery = 2 // authentication only matters for calls that dial
+	}
 	if rapid.IntRange(0, 4).Draw(t, "nojitter") != 0 {
 		c.JitterUS = rapid.SliceOfN(rapid.SampledFrom([]int{0, 0, 10, 50, 100, 300, 1000}), 1, 7).Draw(t, "jitter")
 	}
@@ -176,7 +197,7 @@ func c13Gen(t *rapid.T) c13Case {
 
 func TestC13(t *testing.T) {
 	rec := core.Rec("C13")
-	rec.Rule = "rapid draws (goroutines 2..64, 1..4 messages per goroutine, per-call or batched Send on the shared connection, every n-th goroutine using DialAndSend on the same Client, a per-reply latency jitter plan for the server, GOMAXPROCS in {2, 4, 16}); the binary is built with -race. Every message carries a unique token in its sender, recipients, subject and body. " +
+	rec.Rule = "rapid draws (goroutines 2..64, 1..4 messages per goroutine, per-call or batched Send on the shared connection, every n-th goroutine using DialAndSend on the same Client, optionally SMTP AUTH (LOGIN, CRAM-MD5 or SCRAM-SHA-256 against a verifying reference server, so that shared authenticator state shows), a per-reply latency jitter plan for the server, GOMAXPROCS in {2, 4, 16}); the binary is built with -race. Every message carries a unique token in its sender, recipients, subject and body. " +
 		"Oracle: per connection, the reference server's automaton sees no interleaved transaction (nested MAIL etc.); every committed payload carries exactly its own envelope and complete content; every token is committed exactly once; every Send returned nil and every Msg is delivered; any report of the Go race detector is a violation. " +
 		"Non-trivial: >= 4 goroutines with jitter enabled. Distinct by the drawn parameters."
 	rec.Assumptions = []string{"the harness does not own the Go scheduler: schedules are varied through GOMAXPROCS, goroutine counts and server latency only", "the race detector only sees the executions that happen"}
